@@ -5668,6 +5668,14 @@ def merge_parts(parts, reassign="voice"):
 
     # pass from an array of array with one elements, to array of elements
     parts_quarter_durations = [durs[0] for durs in parts_quarter_durations]
+    # a quarter duration may be stored as a float with an integer value (load_mei
+    # computes it by a division); np.lcm is only defined for integers
+    if not all(float(d).is_integer() for d in parts_quarter_durations):
+        raise Exception(
+            "Merging parts with non-integer divisions is not supported. Found divisions",
+            parts_quarter_durations,
+        )
+    parts_quarter_durations = [int(d) for d in parts_quarter_durations]
 
     lcm = np.lcm.reduce(parts_quarter_durations)
     time_multiplier_per_part = [int(lcm / d) for d in parts_quarter_durations]
